@@ -99,6 +99,12 @@ def near_special_floats():
             out.append(repr(s_ * (1 + r)))
         for d in (2, 4, 5, 6, 8, 12):
             out.append(repr(round(s_, d)))
+    # whole multiples k*s of the same specials and the doubles directly next to them (one ulp up / down): a quotient such
+    # as v/pi is rounded, so "is a multiple of" tests that hold for the exact multiple may hold for its neighbours too
+    for s_ in (math.pi, math.pi / 2, math.e, 1 / 3, 2 ** 0.5, 0.1):
+        for k in range(2, 70):
+            v = k * s_
+            out.extend([repr(v), repr(math.nextafter(v, math.inf)), repr(math.nextafter(v, -math.inf))])
     seen = set()
     res = []
     for t in out:
